@@ -3,6 +3,7 @@ package main
 // Flattening of Go types into SMT leaves, and type constants for interface reasoning.
 
 import (
+	"regexp"
 	"fmt"
 	"go/types"
 	"strings"
@@ -28,7 +29,23 @@ var opaqueNamed = map[string]bool{
 }
 
 func typeKey(t types.Type) string {
-	return types.TypeString(t, func(p *types.Package) string { return shortPkg(p.Path()) })
+	return canonAny(types.TypeString(t, func(p *types.Package) string { return shortPkg(p.Path()) }))
+}
+
+var anyRe = regexp.MustCompile(`(^|[^A-Za-z0-9_.])any($|[^A-Za-z0-9_])`)
+
+// canonAny: `any` is an alias of interface{}; type keys must not depend on which spelling the source uses.
+func canonAny(s string) string {
+	if !strings.Contains(s, "any") {
+		return s
+	}
+	for {
+		n := anyRe.ReplaceAllString(s, "${1}interface{}${2}")
+		if n == s {
+			return s
+		}
+		s = n
+	}
 }
 
 const modPath = "github.com/filecoin-project/go-jsonrpc"
